@@ -411,10 +411,27 @@ def rule_L8r(ctx):
             ctx.ob("L8r", fn, f"{h}: returns the window as the sample's data stream", ok, "", inst=f"{h}:returns")
     # B5 handler map
     tg = ctx.fn(sf, "SampleFile.to_generalized", "L8r")
-    dicts = [n for n in own_nodes(tg) if isinstance(n, ast.Assign) and isinstance(n.value, ast.Dict) and norm(n.targets[0]) == "get_params_map"]
-    if len(dicts) != 1:
-        raise AnalysisError("L8r", where(tg), "get_params_map not found")
-    d = dicts[0].value
+    # the mode -> handler table: the dict whose .get(self.loop_mode) / [self.loop_mode] selects the handler (a local or a module constant)
+    sel = [c for c in own_nodes(tg) if isinstance(c, ast.Call) and isinstance(c.func, ast.Attribute) and c.func.attr == "get" and c.args and norm(c.args[0]) == "self.loop_mode"]
+    sel += [c for c in own_nodes(tg) if isinstance(c, ast.Subscript) and norm(c.slice) == "self.loop_mode"]
+    d = None
+    map_name = None
+    if len(sel) == 1:
+        recv = sel[0].func.value if isinstance(sel[0], ast.Call) else sel[0].value
+        if isinstance(recv, ast.Dict):
+            d = recv
+        elif isinstance(recv, ast.Name):
+            map_name = recv.id
+            loc = [n.value for n in own_nodes(tg) if isinstance(n, (ast.Assign, ast.AnnAssign)) and n.value is not None
+                   and norm(n.targets[0] if isinstance(n, ast.Assign) else n.target) == recv.id]
+            if len(loc) == 1 and isinstance(loc[0], ast.Dict):
+                d = loc[0]
+            elif not loc:
+                b_ = tg._module.env.get(recv.id)
+                if b_ and b_[0] == "assign" and isinstance(b_[1], ast.Dict):
+                    d = b_[1]
+    if d is None:
+        raise AnalysisError("L8r", where(tg), "loop-mode handler table not found")
     got = {norm(k).split(".")[-1]: norm(v) for k, v in zip(d.keys, d.values)}
     members = ctx.folder.enum_members(ctx.prog.klass(RO + "data_types.py", "RolandLoopMode", "L8r"))
     for mname in members:
@@ -429,11 +446,22 @@ def rule_L8r(ctx):
         ok = len(rp) == 1 and [norm(a) for a in rp[0][0].args] == ["self.start_sample.address", "self.sustain_loop_start.address", "self.sustain_loop_end.address",
                                                                    "self.release_loop_start.address", "self.release_loop_end.address"]
         ctx.ob("L8r", rp[0][0] if rp else tg, "loop points are the coarse addresses of start, sustain start/end, release start/end in that order", ok, "", inst="points")
-        g = [c for c, e, s in calls_on(p, attr="get") if dotted(c.func) == "get_params_map.get"]
-        ok = len(g) == 1 and norm(g[0].args[0]) == "self.loop_mode"
+        # the call whose callee is the selected table entry
+        hc = []
+        for c, e, st in calls_on(p):
+            if isinstance(c.func, ast.Name) and c.func.id in e:
+                k = e[c.func.id].key() if hasattr(e[c.func.id], "key") else ""
+                if ".get(self.loop_mode" in k or (k.startswith("sub(") and k.endswith(",self.loop_mode)")):
+                    hc.append((c, e))
+            elif isinstance(c.func, (ast.Call, ast.Subscript)) and c.func in sel:
+                hc.append((c, e))
+        ok = len(hc) == 1 and len(sel) == 1
         ctx.ob("L8r", tg, "the handler is selected by the sample's own loop mode", ok, "", inst="select")
-        fc = [c for c, e, s in calls_on(p, name="f_get_params")]
-        ok = len(fc) == 1 and [norm(a) for a in fc[0].args] == ["self._data_stream", "points"]
+        ok = len(hc) == 1
+        if ok:
+            ev_ = evaluator(ctx, tg, hc[0][1])
+            a_ = [ev_.ev(x).key() for x in hc[0][0].args]
+            ok = len(a_) == 2 and a_[0] == "self._data_stream" and a_[1].startswith("RolandLoopPoints(")
         ctx.ob("L8r", tg, "the handler receives the sample's cluster-chain stream and the points", ok, "", inst="handler-args")
         smp = list(calls_on(p, name="Sample"))
         if smp:
